@@ -29,6 +29,7 @@ type Engine struct {
 	typeCache    map[string]types.Type
 	pkgFilePos   map[string][]token.Pos
 	extraPkgs    map[string]*types.Package
+	importAlias  map[string]map[string]*types.Package // package path -> import alias -> package
 	allTypesPkgs []*types.Package
 	loopCache    map[*ssa.Function]map[*ssa.BasicBlock]*loopInfo
 	globalInit   map[string]globalInitInfo
@@ -84,7 +85,7 @@ func NewEngine(repo string, patterns []string) (*Engine, error) {
 		spkgs: map[string]*ssa.Package{}, specs: map[string]*PkgSpec{},
 		heapKeys: map[string]*Sort{}, closures: map[string]ClosureV{},
 		typeTags: map[string]int{}, tagTypes: map[int]types.Type{}, strLits: map[string]int{},
-		typeCache: map[string]types.Type{}, pkgFilePos: map[string][]token.Pos{}, extraPkgs: map[string]*types.Package{},
+		typeCache: map[string]types.Type{}, pkgFilePos: map[string][]token.Pos{}, extraPkgs: map[string]*types.Package{}, importAlias: map[string]map[string]*types.Package{},
 		loopCache: map[*ssa.Function]map[*ssa.BasicBlock]*loopInfo{}, trivial: map[string]int{},
 		extraAssumptions: map[string][]string{}, extraCoverage: map[string]map[string]interface{}{},
 		protoContract: map[*ssa.Function]*Contract{}, reassignCache: map[string]bool{}, evKinds: map[string]int{},
@@ -102,6 +103,21 @@ func NewEngine(repo string, patterns []string) (*Engine, error) {
 			e.spkgs[p.PkgPath] = sp
 		}
 		e.allTypesPkgs = append(e.allTypesPkgs, p.Types)
+		// import aliases used by the files of this package (m3thrift "…/thrift/v2")
+		for _, f := range p.Syntax {
+			for _, im := range f.Imports {
+				if im.Name == nil || im.Name.Name == "_" || im.Name.Name == "." {
+					continue
+				}
+				path := strings.Trim(im.Path.Value, "\"")
+				if ip, ok := p.Imports[path]; ok && ip.Types != nil {
+					if e.importAlias[p.PkgPath] == nil {
+						e.importAlias[p.PkgPath] = map[string]*types.Package{}
+					}
+					e.importAlias[p.PkgPath][im.Name.Name] = ip.Types
+				}
+			}
+		}
 		if _, ok := e.extraPkgs[p.Types.Name()]; !ok {
 			e.extraPkgs[p.Types.Name()] = p.Types
 		}
